@@ -9,7 +9,7 @@ PBT = "cvh-pbt"
 # id -> (level, technique, text, note)
 CHECKS = {
  "C01": ("exploration", "bounded-exhaustive damage enumeration + seeded random PBT; error-or-original and digest==address oracles",
-  "Every single-bit flip and every truncation length of small entries, 12 damage classes under each of the 5 algorithms, and random damage over all sizes; after the damage every checked retrieval entry point (read, read_hash, SyncReader/Reader+check, copy, copy_hash, hard_link*, reflink*) by key and by address in both flavours must return an error or exactly the stored bytes.",
+  "Every single-bit flip and every truncation length of small entries, 12 damage classes under each of the 5 algorithms, and random damage over all sizes; after the damage every checked retrieval entry point (read, read_hash, SyncReader/Reader+check, copy, copy_hash, hard_link*, reflink*) by key and by address in both flavours must return an error or exactly the stored bytes. Every entry point first runs on the pristine entry; large entries are also retrieved by 6 threads at once (before and after the damage) and read with one read_exact; destinations include another filesystem and a hard link of the content file.",
   "Stream bytes before check() are not judged; reflink success is unreachable on this filesystem."),
  "C03": ("fault_enumeration", "system-call-level crash-point enumeration under a ptrace supervisor (pause-inspect, torn writes, kills) + no-crash PBT invariant",
   "Write scenarios run in a driver process under ptrace: the writer is held before EVERY mutating system call and the live content tree is judged (file at its address <=> bytes hash to it, readable through the library); data write(2) calls are torn at every byte length (small data) or generated lengths and the process killed; real kills at selected calls; plus random no-crash programs with rejected commits and abandoned writers.",
@@ -21,7 +21,7 @@ CHECKS = {
   "Every cut length and every single-bit flip of small buckets, each followed by appends, plus random multi-damage cases (garbage incl. invalid UTF-8 and NUL, inserted lines, duplicated fragments, stripped newlines, torn tails) over histories written by the library and by an independent writer; lookups and listing must equal the fold over the records an independent reference reader accepts, sync == async, every returned entry was written verbatim, and appended records are effective.",
   "Reference reader written from the C17 statement; checksum-valid ill-formed records are out of the stated damage classes."),
  "C12": ("exploration", "three-way differential PBT (sync / async-std / tokio) over generated programs incl. damage steps + mixed-flavour execution against the reference model",
-  "The same generated program (all option combinations, extraction, link_to, removals, raw index calls, damage to content and bucket files between steps) runs in three fresh caches through the _sync API, this build's async runtime and the other runtime (the other build's driver process, step-synchronous); per step the normalised results must be equal and admitted by the model, the final trees must decode to the same records and content; a mixed execution assigns each step a generated flavour and is judged by the model, then read through all three.",
+  "The same generated program (all option combinations, extraction, link_to, removals, raw index calls, damage to content and bucket files between steps) runs in three fresh caches through the _sync API, this build's async runtime and the other runtime (the other build's driver process, step-synchronous); per step the normalised results must be equal and admitted by the model, the final trees must decode to the same records and content; a mixed execution assigns each step a generated flavour and is judged by the model, then read through all three. Two further case kinds without a model: planted odd index records (read side must agree), and programs run in three single-threaded driver processes with a relative cache path and a changing working directory.",
   "The remote flavour is the other build's driver binary; timestamps assigned by the library are blanked after the model judged them."),
  "C13": ("fault_enumeration", "system-call fault injection at every call of each operation under a ptrace supervisor; truthfulness + model sweep + fault-free re-run oracle",
   "17 victim operations x 2 flavours x 2 builds: a fault-free traced run lists the filesystem system calls of the operation, then every call in turn is made to fail with EIO and a class-specific errno (all applicable errnos and fault pairs in the thorough tier), plus short-write-then-ENOSPC; the call must return, successes must be truthful per the model, 'not found' for a present key is a violation, afterwards every other key/address equals the model, the content tree is valid, and the same call re-run without faults behaves normally.",
@@ -30,16 +30,16 @@ CHECKS = {
   "Programs interleaving successful writes, rejected commits and writers abandoned after creation / after j chunks / mid-flight (future polled once then dropped) / after flush; the model must be unchanged by them after every step and the temp area must drain (tokio: runtime dropped = pool joined; async-std: polled, two snapshots).",
   "async-std background cleanup is awaited by polling (bounded); a still-changing temp area is inconclusive (exit 2), never a violation."),
  "C17": ("exploration", "two-way interchange PBT against an independent Python implementation of the format (hashlib/json); codec cross-check",
-  "Direction A: the library writes generated histories; ref/refcache.py validates the layout (SHA-1 bucket paths, record grammar, six fields, content paths and digests) and its lookups/reads/listing must equal the library's and the model's; Rust and Python reference codecs must agree on every bucket. Direction B: the Python implementation writes the same history (alternating escaping and field order) and every library read entry point must return exactly what was written.",
+  "Direction A: the library writes generated histories; ref/refcache.py validates the layout (SHA-1 bucket paths, record grammar, six fields, content paths and digests) and its lookups/reads/listing must equal the library's and the model's; Rust and Python reference codecs must agree on every bucket. Direction B: the Python implementation writes the same history (alternating escaping and field order) and every library read entry point must return exactly what was written. A third of the cases then hand the reference-written cache to another user and read it through a driver process running as an unprivileged third user (setpriv): reading needs nothing but read permission.",
   "CPython hashlib/json as the independent implementation (no XXH3: digest supplied by the harness, verification skipped)."),
  "C18": ("exploration", "factor-grid + random PBT against the reference model; destination-state oracle",
-  "Full grid over size x damage class x extraction kind x checked x by key/address x flavour x destination state: success leaves exactly the stored bytes (and the byte count for copies); missing key / content give the stated errors; a failed checked extraction leaves the destination absent or exactly as it was.",
+  "Full grid over size x damage class x extraction kind x checked x by key/address x flavour x destination state: success leaves exactly the stored bytes (and the byte count for copies); missing key / content give the stated errors; a failed checked extraction leaves the destination absent or exactly as it was. Destination classes: absent, existing file, another filesystem, 255-byte name, next to somebody else's sibling files, an existing hard link of the entry's own content file.",
   "Unchecked extraction of damaged content is not judged; reflink success unreachable here."),
  "C19": ("exploration", "factor-grid + random PBT of link_to with relative paths in a subprocess, partial reads, post-link target changes; model + target-stat oracle",
   "Every link_to entry point (sync/async, keyed/by-hash, one-shot/builder) over target sizes around the 8-byte probe and 16 KiB buffer, absolute and relative targets (driver process with its own working directory, depth 0-3), partial reads before commit, pre-existing address, declarations; reads by key/address/stream and metadata.size must give the target's bytes as of link time, the content path must be a symlink (or the untouched existing file), no copy may appear in the cache, the target's bytes/inode/mtime never change, and after the target is modified, truncated, removed or replaced reads must fail.",
   "Harness builds enable the link_to feature."),
  "C20": ("exploration", "union PBT campaign under catch_unwind + panic hook + watchdog: random programs, hostile on-disk records, fault-injection and crash cases; libFuzzer targets in the thorough tier",
-  "Random programs over the whole operation language on directory / missing / file cache roots; checksum-valid index records with hostile fields planted before programs (fixed family of 17 integrity strings x every read-side call, plus random); C13 fault cases and C04 crash cases judged for panics, hangs and abnormal exits only; panics on runtime threads are collected; a per-case watchdog bounds termination.",
+  "Random programs over the whole operation language on directory / missing / file cache roots; checksum-valid index records with hostile fields planted before programs (fixed family of 17 integrity strings x every read-side call, plus random); C13 fault cases and C04 crash cases judged for panics, hangs and abnormal exits only; panics on runtime threads are collected; a per-case watchdog bounds termination. Fatal signals inside a case (SIGSEGV / SIGBUS / SIGABRT / SIGILL / SIGFPE) dump the running case, which the front end re-runs: a reproducible process death is the violation.",
   "Integrity arguments are well-formed as the property assumes; 'never hangs' is bounded by a watchdog, not proved."),
  "C02": ("exploration", "round-trip PBT (proptest) over a factor grid + seeded random cases; model digest oracle",
   "Factor grid over algorithm x boundary length (0, 1, 8 KiB±1, 1 MiB±1, multi-MiB) x every write entry point x flavour x size declaration x chunking, plus random writes with hostile keys; every write must succeed, return the independently computed digest, and read back exactly through six read entry points by key and by the returned address. Both async builds.",
